@@ -111,7 +111,16 @@ class TCPTransport(KNXIPTransport):
                 self.remote_hpai,
                 knxipframe,
             )
-            self.handle_knxipframe(knxipframe, self.remote_hpai)
+            try:
+                self.handle_knxipframe(knxipframe, self.remote_hpai)
+            except CouldNotParseKNXIP as err:
+                # e.g. a SecureWrapper before the secure session is initialized - it
+                # shall not escape into the event loop and drop the frames that follow
+                knx_logger.debug(
+                    "Discarding KNXIPFrame from %s: %s",
+                    self.remote_hpai,
+                    err.description,
+                )
         # parse data after current KNX/IP frame
         if next_frame_part:
             self.data_received_callback(next_frame_part)
